@@ -389,7 +389,7 @@ def own(g, rs, ctx):
         _TL.last_entry = which
         if which == "parafac":
             D.parafac(X, R, n_iter_max=it, init=cp_init(False), fixed_modes=fixed() if rs.rand() < 0.6 else None, normalize_factors=bool(rs.rand() < 0.3),
-                      linesearch=bool(rs.rand() < 0.2), random_state=seed)
+                      linesearch=bool(rs.rand() < 0.2), random_state=seed, orthogonalise=gen.choice(rs, [False, False, True, 2]))
         elif which == "parafac_mask":
             mask = argkind(rs, (rs.uniform(size=shp) < 0.8).astype(float), ctx)
             D.parafac(X, R, n_iter_max=it, init=gen.choice(rs, ["svd", "random"]), mask=mask, random_state=seed)
@@ -512,7 +512,7 @@ def own(g, rs, ctx):
         from tensorly.decomposition import _cp, _tucker, _parafac2, _constrained_cp, _tr_als, _cp_power, _symmetric_cp
         from tensorly import parafac2_tensor as p2m, cp_tensor as cpm_
         which = gen.choice(rs, ["base", "base", "random", "init_cp", "init_tucker", "init_constrained", "init_parafac2", "ttm", "tr_sampled", "power",
-                                "sym_power", "lstsq_grad", "p2_apply", "svd_helpers", "validate", "contrib", "methods", "entropy"])
+                                "sym_power", "lstsq_grad", "p2_apply", "svd_helpers", "validate", "contrib", "methods", "entropy", "backend_linalg", "backend_linalg"])
         _TL.last_entry = "api:" + which
         ctx.count("own/api_" + which)
         Xs = argkind(rs, rs.standard_normal(shp), ctx)
@@ -588,6 +588,30 @@ def own(g, rs, ctx):
             p2m.parafac2_to_slice(tup, 1)
             p2m.parafac2_to_unfolded(tup, 1)
             p2m.parafac2_to_vec(tup)
+        elif which == "backend_linalg":
+            # backend primitives a caller may use directly: LAPACK-backed routines must not work in place on the caller's array,
+            # whatever its memory order (Fortran-ordered, transposed, single column)
+            from tensorly.parafac2_tensor import Parafac2Tensor
+            Mq = rs.standard_normal((int(rs.randint(3, 7)), int(rs.randint(1, 4))))
+            Mq = gen.choice(rs, [np.asfortranarray(Mq), np.ascontiguousarray(Mq.T).T, Mq.copy(), Mq[:, :1].copy()])
+            Ms = rs.standard_normal((4, 4)) + 4 * np.eye(4)
+            Ms = np.asfortranarray(Ms) if rs.rand() < 0.5 else Ms
+            rhs = np.asfortranarray(rs.standard_normal((4, 2)))
+            G_ = Ms @ Ms.T
+            cpB = CPTensor((rs.uniform(0.5, 2, 2), [np.asfortranarray(rs.standard_normal((s_, 2))) for s_ in (3, 5, 4)]))
+            # these entry points are not module-level functions (backend methods, a classmethod): judged here directly
+            for nm_, call_, args_ in (("tl.qr", lambda: tl.qr(Mq), [Mq]), ("tl.solve", lambda: tl.solve(Ms, rhs), [Ms, rhs]), ("tl.lstsq", lambda: tl.lstsq(Ms, rhs), [Ms, rhs]),
+                                      ("tl.svd", lambda: tl.svd(Ms), [Ms]), ("tl.eigh", lambda: tl.eigh(G_), [G_]),
+                                      ("Parafac2Tensor.from_CPTensor", lambda: Parafac2Tensor.from_CPTensor(cpB), [cpB.weights] + list(cpB.factors))):
+                before_ = [snap(a_) for a_ in args_]
+                call_()
+                ctx.count("calls_observed")
+                ctx.count("entry/%s" % nm_)
+                for a_, b_ in zip(args_, before_):
+                    if snap(a_) != b_:
+                        ctx.violation("C15:%s:argument-modified:array" % nm_.split(".")[-1], "%s modified a caller-owned array (flags %s, shape %s)" % (
+                            nm_, "F" if a_.flags.f_contiguous and not a_.flags.c_contiguous else ("C+F" if a_.flags.f_contiguous else "C"), a_.shape), {"entry": nm_})
+                        return
         elif which == "svd_helpers":
             M = argkind(rs, rs.standard_normal((int(rs.randint(3, 7)), int(rs.randint(3, 7)))), ctx)
             k = 2
@@ -641,7 +665,7 @@ def own(g, rs, ctx):
     # own_misc: transforms / tenalg / metrics with caller-owned lists
     from tensorly import tenalg, cp_tensor as cpm, metrics
     which = gen.choice(rs, ["cp_flip_sign", "cp_permute_list", "khatri_rao_mask", "cp_normalize", "mttkrp", "kronecker", "multi_mode_dot", "corrindex", "congruence",
-                            "svd_compress", "cp_mode_dot_copy", "prox", "process_reg", "validate_rank", "tensordot_lists", "tensordot_lists", "nnls_start", "nnls_start",
+                            "svd_compress", "cp_mode_dot_copy", "cp_mode_dot_copy", "prox", "process_reg", "validate_rank", "tensordot_lists", "tensordot_lists", "nnls_start", "nnls_start",
                             "rank_lists", "mode_lists"])
     _TL.last_entry = which
     fs = [argkind(rs, rs.standard_normal((s, R)), ctx) for s in shp]
@@ -678,7 +702,17 @@ def own(g, rs, ctx):
         sl = [argkind(rs, rs.standard_normal((int(rs.randint(3, 7)), 3)), ctx) for _ in range(3)]
         pre.svd_compress_tensor_slices(sl, compression_threshold=float(rs.choice([0.0, 1e-8])))
     elif which == "cp_mode_dot_copy":
-        cpm.cp_mode_dot(CPTensor((w, fs)), rs.standard_normal((2, shp[0])), 0, copy=True)
+        m_ = int(rs.randint(order))
+        op_ = rs.standard_normal(shp[m_]) if rs.rand() < 0.6 else rs.standard_normal((2, shp[m_]))
+        obj_ = gen.choice(rs, [CPTensor((w, fs)), (w, fs)])
+        if isinstance(obj_, CPTensor) and rs.rand() < 0.5:
+            obj_.mode_dot(op_, m_)            # the method's default is copy=True
+        else:
+            cpm.cp_mode_dot(obj_, op_, m_, keep_dim=bool(rs.rand() < 0.3), copy=True)
+        from tensorly import tucker_tensor as tkm_
+        rk_ = [min(2, s_) for s_ in shp]
+        tkm_.tucker_mode_dot((argkind(rs, rs.standard_normal(rk_), ctx), [argkind(rs, rs.standard_normal((s_, r_)), ctx) for s_, r_ in zip(shp, rk_)]),
+                             rs.standard_normal(shp[m_]) if (order > 2 and rs.rand() < 0.5) else rs.standard_normal((2, shp[m_])), m_, copy=True)
     elif which == "prox":
         from tensorly.tenalg import proximal as P
         v = argkind(rs, rs.standard_normal((5, 3)), ctx)
